@@ -48,6 +48,9 @@ pub struct PadCase {
     /// start the session the way client.rs does (Settings + SYN + destination as first batch)
     pub real_first_batch: bool,
     pub server_role: bool,
+    /// with `real_first_batch`: false = no destination frame; the first payload of the list is the frame that
+    /// flushes the buffered Settings + SYN (so its size varies)
+    pub dest_first: bool,
 }
 
 #[derive(Clone, Debug, Default)]
@@ -90,14 +93,16 @@ fn pad_scenario(case: PadCase, slot: Arc<Mutex<Option<PadResult>>>) -> ScenarioF
                     Ok((st, _rx)) => {
                         sid = st.id();
                         sess.disable_buffering();
-                        let dest = vec![3u8, 11, b'e', b'x', b'a', b'm', b'p', b'l', b'e', b'.', b'c', b'o', b'm', 1, 187];
-                        if let Err(e) = sess.write_data_frame(sid, Bytes::from(dest.clone())).await {
-                            res.errors.push(format!("first batch: {e}"));
-                        }
                         // what was submitted: settings (parsed from the wire later), SYN, PSH
                         res.submitted.push(RFrame::new(SETTINGS, 0, b"?"));
                         res.submitted.push(RFrame::new(SYN, sid, b""));
-                        res.submitted.push(RFrame::new(PSH, sid, &dest));
+                        if case.dest_first {
+                            let dest = vec![3u8, 11, b'e', b'x', b'a', b'm', b'p', b'l', b'e', b'.', b'c', b'o', b'm', 1, 187];
+                            if let Err(e) = sess.write_data_frame(sid, Bytes::from(dest.clone())).await {
+                                res.errors.push(format!("first batch: {e}"));
+                            }
+                            res.submitted.push(RFrame::new(PSH, sid, &dest));
+                        }
                     }
                     Err(e) => res.errors.push(format!("open_stream: {e}")),
                 }
@@ -221,15 +226,28 @@ fn long_lines(max_entries: usize) -> Vec<String> {
     out
 }
 
+/// The frame that flushes the buffered Settings + SYN of a new client session has every interesting size
+/// (client.rs always sends the small destination frame first; the session API does not require that).
+fn first_flush_cases() -> Vec<PadCase> {
+    let mut cases = vec![];
+    for line in ["", "30-30", "100-400,c,65535-65535", "7-7,8-8", "400-400,c,30000-30000"] {
+        for first in [0usize, 1, 493, 8192, 16377, 16378, 16384, 32768, 65528, 65535, 65536, 70000] {
+            let scheme = if line.is_empty() { "stop=0".to_string() } else { scheme_text(3, line, None) };
+            cases.push(PadCase { scheme, draw: DrawPolicy::Max, payloads: vec![first, 5, 40], real_first_batch: true, server_role: false, dest_first: false });
+        }
+    }
+    cases
+}
+
 fn long_line_cases(thorough: bool) -> Vec<PadCase> {
     let mut cases = vec![];
     for line in long_lines(if thorough { 5 } else { 4 }) {
         let draws: Vec<DrawPolicy> = if line.contains("100-400") { vec![DrawPolicy::Min, DrawPolicy::Alternate] } else { vec![DrawPolicy::Min] };
         for draw in draws {
             for p in [0usize, 1, 23, 31, 100, 493] {
-                cases.push(PadCase { scheme: scheme_text(3, &line, None), draw, payloads: vec![p; 3], real_first_batch: false, server_role: false });
+                cases.push(PadCase { scheme: scheme_text(3, &line, None), draw, payloads: vec![p; 3], real_first_batch: false, server_role: false, dest_first: true });
             }
-            cases.push(PadCase { scheme: scheme_text(3, &line, None), draw, payloads: vec![5, 300, 0], real_first_batch: true, server_role: false });
+            cases.push(PadCase { scheme: scheme_text(3, &line, None), draw, payloads: vec![5, 300, 0], real_first_batch: true, server_role: false, dest_first: true });
         }
     }
     cases
@@ -271,23 +289,24 @@ pub fn run_c04(tier: Tier) -> i32 {
                     if *p == 65535 && !thorough && line.matches(',').count() >= 1 && stop != 2 {
                         continue;
                     }
-                    cases.push(PadCase { scheme: scheme_text(stop, line, None), draw, payloads: vec![*p; n], real_first_batch: false, server_role: false });
+                    cases.push(PadCase { scheme: scheme_text(stop, line, None), draw, payloads: vec![*p; n], real_first_batch: false, server_role: false, dest_first: true });
                 }
-                cases.push(PadCase { scheme: scheme_text(stop, line, None), draw, payloads: vec![5, 300, 0, 40], real_first_batch: true, server_role: false });
+                cases.push(PadCase { scheme: scheme_text(stop, line, None), draw, payloads: vec![5, 300, 0, 40], real_first_batch: true, server_role: false, dest_first: true });
                 if stop >= 2 {
-                    cases.push(PadCase { scheme: scheme_text(stop, line, Some(2)), draw, payloads: vec![10, 10, 10, 10], real_first_batch: false, server_role: false });
+                    cases.push(PadCase { scheme: scheme_text(stop, line, Some(2)), draw, payloads: vec![10, 10, 10, 10], real_first_batch: false, server_role: false, dest_first: true });
                 }
             }
         }
     }
     cases.extend(long_line_cases(thorough));
+    cases.extend(first_flush_cases());
     // over-long chunk (several frames in one call) under padding
     for line in ["30-30", "100-400,c,65535-65535", "7-7,8-8"] {
-        cases.push(PadCase { scheme: scheme_text(3, line, None), draw: DrawPolicy::Max, payloads: vec![70000, 131072], real_first_batch: true, server_role: false });
+        cases.push(PadCase { scheme: scheme_text(3, line, None), draw: DrawPolicy::Max, payloads: vec![70000, 131072], real_first_batch: true, server_role: false, dest_first: true });
     }
     // server role never pads
     for line in ["30-30", "100-400"] {
-        cases.push(PadCase { scheme: scheme_text(3, line, None), draw: DrawPolicy::Max, payloads: vec![5, 50, 500], real_first_batch: false, server_role: true });
+        cases.push(PadCase { scheme: scheme_text(3, line, None), draw: DrawPolicy::Max, payloads: vec![5, 50, 500], real_first_batch: false, server_role: true, dest_first: true });
     }
     let n_cases = cases.len();
     let cases = Arc::new(cases);
@@ -324,7 +343,7 @@ pub fn run_c04(tier: Tier) -> i32 {
 
 /// sizes >= 2^31 can abort the process on allocation: each case runs in a child process under RLIMIT_AS.
 fn giant_sizes(rep: &mut Report, thorough: bool) {
-    let exe = std::env::current_exe().unwrap();
+    let exe = crate::det::self_exe();
     let sizes: Vec<&str> = if thorough { vec!["2147483647", "2147483648", "4294967295", "4294967326", "9223372036854775807"] } else { vec!["2147483648", "4294967326"] };
     for size in sizes {
         for form in ["{s}-{s}", "30-30,{s}-{s}", "c,{s}-{s}", "{s}-9999999999", "3000000000-{s}", "1-{s}"] {
@@ -360,7 +379,7 @@ pub fn pad_child(scheme: &str, payload: usize) -> i32 {
         let lim = libc::rlimit { rlim_cur: 4 << 30, rlim_max: 4 << 30 };
         libc::setrlimit(libc::RLIMIT_AS, &lim);
     }
-    let case = PadCase { scheme: scheme.to_string(), draw: DrawPolicy::Max, payloads: vec![payload; 4], real_first_batch: false, server_role: false };
+    let case = PadCase { scheme: scheme.to_string(), draw: DrawPolicy::Max, payloads: vec![payload; 4], real_first_batch: false, server_role: false, dest_first: true };
     match run_pad_case(&case) {
         None => {
             println!("CHILD-OK (scheme rejected)");
@@ -519,7 +538,7 @@ pub fn make_c05_dx(n_writers: usize, scheme: &'static str) -> ScenarioFn {
         for h in hs {
             let _ = h.await;
         }
-        let case = PadCase { scheme: scheme.to_string(), draw: DrawPolicy::Min, payloads: vec![], real_first_batch: false, server_role: false };
+        let case = PadCase { scheme: scheme.to_string(), draw: DrawPolicy::Min, payloads: vec![], real_first_batch: false, server_role: false, dest_first: true };
         let r = PadResult { batches: batches(&wire), submitted: vec![], errors: vec![], panicked: false };
         for (k, d) in c05_oracle(&case, &r) {
             out.viol(k, d);
@@ -565,20 +584,21 @@ pub fn run_c05(tier: Tier) -> i32 {
                     if *p == 65528 && !thorough && line.matches(',').count() >= 1 && stop != 2 {
                         continue;
                     }
-                    cases.push(PadCase { scheme: scheme_text(stop, line, None), draw, payloads: vec![*p; n], real_first_batch: false, server_role: false });
+                    cases.push(PadCase { scheme: scheme_text(stop, line, None), draw, payloads: vec![*p; n], real_first_batch: false, server_role: false, dest_first: true });
                 }
-                cases.push(PadCase { scheme: scheme_text(stop, line, None), draw, payloads: vec![5, 300, 0, 40], real_first_batch: true, server_role: false });
+                cases.push(PadCase { scheme: scheme_text(stop, line, None), draw, payloads: vec![5, 300, 0, 40], real_first_batch: true, server_role: false, dest_first: true });
                 if stop >= 3 {
-                    cases.push(PadCase { scheme: scheme_text(stop, line, Some(2)), draw, payloads: vec![10, 10, 10, 10], real_first_batch: false, server_role: false });
+                    cases.push(PadCase { scheme: scheme_text(stop, line, Some(2)), draw, payloads: vec![10, 10, 10, 10], real_first_batch: false, server_role: false, dest_first: true });
                 }
             }
         }
-        cases.push(PadCase { scheme: scheme_text(3, line, None), draw: DrawPolicy::Max, payloads: vec![5, 50, 500], real_first_batch: false, server_role: true });
+        cases.push(PadCase { scheme: scheme_text(3, line, None), draw: DrawPolicy::Max, payloads: vec![5, 50, 500], real_first_batch: false, server_role: true, dest_first: true });
     }
     cases.extend(long_line_cases(thorough));
+    cases.extend(first_flush_cases());
     // the default scheme with the real first batch and every draw policy
     for draw in [DrawPolicy::Min, DrawPolicy::Max, DrawPolicy::MinPlus1, DrawPolicy::Mid] {
-        cases.push(PadCase { scheme: DEFAULT.to_string(), draw, payloads: vec![100, 2000, 5, 5, 5, 5, 5, 5, 5, 5], real_first_batch: true, server_role: false });
+        cases.push(PadCase { scheme: DEFAULT.to_string(), draw, payloads: vec![100, 2000, 5, 5, 5, 5, 5, 5, 5, 5], real_first_batch: true, server_role: false, dest_first: true });
     }
     let n_cases = cases.len();
     let cases = Arc::new(cases);
